@@ -118,6 +118,14 @@ void EPollPoller::updateChannel(Channel* channel)
     {
       assert(channels_.find(fd) == channels_.end());
       channels_[fd] = channel;
+      if (channel->isNoneEvent())
+      {
+        // nothing to watch yet (first update without interest): known to the
+        // poller, not to the kernel - the state a channel is in after its
+        // last interest was disabled
+        channel->set_index(kDeleted);
+        return;
+      }
     }
     else // index == kDeleted
     {
